@@ -361,6 +361,17 @@ Proof.
     apply answer_page_answer.
 Qed.
 
+Theorem count_correct st fuel id a c kids :
+  let t := Node id a c kids in
+  stored st None t -> accurate t -> acyclic t ->
+  (theight t <= N.to_nat page_depth)%nat -> (theight t < fuel)%nat ->
+  exists rt, load_root st fuel id = Ok rt /\ num_pages rt = lenN (leaves t).
+Proof.
+  intros t H1 H2 H3 H4 H5.
+  destruct (page_correct st fuel id a c kids 0 H1 H2 H3 H4 H5) as [rt [Ha [Hb _]]]; [discriminate|].
+  exists rt. split; assumption.
+Qed.
+
 (** File::pages yields exactly the leaves, in order *)
 Lemma Forall2_seqN {A B} (R : A -> B -> Prop) (g : N -> A) : forall (l : list B) s,
   (forall i e, nth_error l i = Some e -> R (g (s + N.of_nat i)) e) ->
